@@ -72,7 +72,7 @@ func (w recWRF) ReadFrom(src io.Reader) (int64, error) {
 
 // operations: one letter each
 // 0..7 SetStatus(code) ; h SetHeader ; e Write("") ; w Write("ab") ; f Flush ; E http.Error(418) ; R Redirect(302) ; T Text(201,"hi") ; S Stream(203, reader without WriteTo)
-var c08Status = map[byte]int{'0': -1, '1': 0, '2': 200, '3': 304, '4': 201, '5': 404, '6': 500, '7': 204, '8': 103, '9': 100}
+var c08Status = map[byte]int{'0': -1, '1': 0, '2': 200, '3': 304, '4': 201, '5': 404, '6': 999, '7': 204, '8': 103, '9': 100}
 
 const c08Ops = "0123456789hewfERTStWIHA"
 
@@ -411,7 +411,7 @@ func c08Check(h *c08Harness, run c08Run_, st *fw.Stats) *fw.Viol {
 	}
 	w, length, status, sampled, pv := h.exec(&run)
 	desc := func() string {
-		return fmt.Sprintf("ops %q (middleware before Next: %q, main handler: %q, middleware after Next: %q), write answers %v [0-9=SetStatus(-1,0,200,304,201,404,500,204,103,100) h=SetHeader (by a rux.HandlerFunc mounted with WrapH) e=Write(\"\") w=Write(\"ab\") f=Flush E=http.Error(418) R=Redirect(302) T=Text(201) t=Text(200) W=c.WriteString I=io.WriteString(c.Resp) S=Stream(203) H=wrapped net/http handler calling http.Error(418) A=AbortWithStatus(403)]%s%s",
+		return fmt.Sprintf("ops %q (middleware before Next: %q, main handler: %q, middleware after Next: %q), write answers %v [0-9=SetStatus(-1,0,200,304,201,404,999,204,103,100) h=SetHeader (by a rux.HandlerFunc mounted with WrapH) e=Write(\"\") w=Write(\"ab\") f=Flush E=http.Error(418) R=Redirect(302) T=Text(201) t=Text(200) W=c.WriteString I=io.WriteString(c.Resp) S=Stream(203) H=wrapped net/http handler calling http.Error(418) A=AbortWithStatus(403)]%s%s",
 			run.Ops, run.Ops[:run.I], run.Ops[run.I:run.J]+map[bool]string{true: " then HandleContext to a route writing \"cd\"", false: ""}[run.Redisp], c08Tail(run), fmtAnswers(run.Answers), map[bool]string{true: "; the main handler then panics and the router's OnPanic hook writes \"H\"", false: ""}[run.Pn], map[bool]string{true: "; HEAD request", false: ""}[run.Head]+map[bool]string{true: "; dispatched with HandleContext on a caller-owned context", false: ""}[run.Direct])
 	}
 	if pv != nil && (!m.panicked || run.Pn) {
@@ -775,7 +775,7 @@ func c08Gen(tier string, emit func(c08Case)) {
 var c08Spec = fw.Spec[c08Case]{
 	ID:    "C08",
 	Level: "model_checking",
-	Rule: "depth-bounded exhaustive search: ALL operation sequences of length <=4 (thorough 6) over 23 operations {SetStatus(-1,0,200,304,201,404,500,204,103,100), SetHeader (from a rux.HandlerFunc mounted through the net/http adapter), Write(\"\"), Write(\"ab\"), Flush, http.Error(418), Redirect(302), Text(201), Text(200), Context.WriteString, io.WriteString(c.Resp), Stream(203), http.Error(418) from a net/http handler wrapped with WrapH, AbortWithStatus(403) without message} x every split of the sequence over middleware-before-Next / main handler / middleware-after-Next (also dispatched by HandleContext on a context the caller built itself, as a HEAD request served by the GET route, with the tail run by the OnError hook, with the main handler panicking at its end and an OnPanic hook writing a byte, with a HandleContext re-dispatch, right after a request that hijacked its connection, for a request carrying websocket-upgrade headers, and on an underlying writer implementing io.ReaderFrom) x every assignment of <=2 non-default answers (short write, error) to the underlying writes (every split up to length 3 (4), 4 representative splits plus OnError / re-dispatch / ReaderFrom variants at length 4 (5), <=1 fault at length 6 over the ten-operation core alphabet {SetStatus(-1), SetStatus(201), SetHeader, Write(\"\"), Write, Flush, http.Error, Text(201), WriteString, Stream} in the thorough tier); " +
+	Rule: "depth-bounded exhaustive search: ALL operation sequences of length <=4 (thorough 6) over 23 operations {SetStatus(-1,0,200,304,201,404,999,204,103,100), SetHeader (from a rux.HandlerFunc mounted through the net/http adapter), Write(\"\"), Write(\"ab\"), Flush, http.Error(418), Redirect(302), Text(201), Text(200), Context.WriteString, io.WriteString(c.Resp), Stream(203), http.Error(418) from a net/http handler wrapped with WrapH, AbortWithStatus(403) without message} x every split of the sequence over middleware-before-Next / main handler / middleware-after-Next (also dispatched by HandleContext on a context the caller built itself, as a HEAD request served by the GET route, with the tail run by the OnError hook, with the main handler panicking at its end and an OnPanic hook writing a byte, with a HandleContext re-dispatch, right after a request that hijacked its connection, for a request carrying websocket-upgrade headers, and on an underlying writer implementing io.ReaderFrom) x every assignment of <=2 non-default answers (short write, error) to the underlying writes (every split up to length 3 (4), 4 representative splits plus OnError / re-dispatch / ReaderFrom variants at length 4 (5), <=1 fault at length 6 over the ten-operation core alphabet {SetStatus(-1), SetStatus(201), SetHeader, Write(\"\"), Write, Flush, http.Error, Text(201), WriteString, Stream} in the thorough tier); " +
 		"plus the requests the router answers by itself (default and silent custom 404 / 405 responders, the body-less OPTIONS reply, do-nothing handlers) on all 384 combinations of 9 router settings; " +
 		"oracle = 20-line writer specification compared with the complete event log of a recording ResponseWriter+Flusher; non-trivial = sequence containing a write, flush or helper",
 	Assume: []string{"Text (WriteBytes) is documented to panic when the underlying write fails; after such a panic only the log so far is compared", "Length() is compared once a header was committed"},
